@@ -10,6 +10,8 @@ StreamOrderDef == <<"interruptions", "primary">>
 DevOrderDef == <<"det">>
 SuspPreDef == <<>>
 SuspPostDef == <<>>
+FlyStreamDef == [f \in {"fly1", "fly2"} |-> f \o "_stream"]
+FlyNDef == [f \in {"fly1", "fly2"} |-> 2]
 XSus == {"s1"}
 SigOfDef == [x \in XSus |-> "sig1"]
 SusFutsDef == [x \in XSus |-> <<"s1a", "s1b">>]
